@@ -863,3 +863,51 @@ C20_EV_INTER_CHAIN = dict(
     params=[("ncols", "nat"), ("self", "evaluation")],
     vars={"mses": _QS, "chain_id": "Z", "selection_vector": _BS, "chain_mse": _QC})
 ALL += [C20_EV_PREDICTIONS, C20_EV_OBSERVATIONS, C20_EV_CHAIN_IDS, C20_EV_MSE, C20_EV_MSE_VARIANCE, C20_EV_INTER_CHAIN]
+
+# ---- C20: models/main.py combination_count / generate_full_combinatoric_space (vocabulary: end of Model/Corr.v) ----
+# The screen is its treatment mapping `tm` (rows ((name, dose), id); names and doses are integers standing for the string
+# and the float), its sample mapping `sm` (rows (name, id)) and its arity.  The returned Screen is (sample_ids, treatment_ids).
+C20_COMBINATION_COUNT = dict(
+    file="src/batchie/models/main.py", func="combination_count", out="SrcSpace.v", imports="Model.Metrics Model.Synergy Model.Corr",
+    name="src_combination_count", pyparams=["n", "k"], params=[("n", "Z"), ("k", "Z")], returns="Z", vars={},
+    prims=[("math.factorial(__n)", "!py_factorial {n}", "Z", {"n": "Z"})],
+)
+_PAIRS = "list (Z * Z)"
+_CUBE = "list list (Z * Z)"
+C20_SPACE = dict(
+    file="src/batchie/models/main.py", func="generate_full_combinatoric_space", out="SrcSpace.v",
+    imports="Model.Metrics Model.Synergy Model.Corr", name="src_generate_full_combinatoric_space", overload=True,
+    pyparams=["sample_id", "screen"],
+    params=[("tm", "tmap3"), ("sm", _PAIRS), ("arity", "nat"), ("sample_id", "Z")], returns="(list Z * list list Z)",
+    vars={"all_treatments": _PAIRS, "combos": _CUBE, "treatment_names": _ZM, "treatment_doses": _ZM, "plate_names": "platecol",
+          "sample_name": "Z", "sample_ids": _ZS},
+    float_consts={"10000000.0": ("10000000", "Z")},          # int > float compares exactly
+    prims=[
+        ("screen.treatment_space_size", "Z.of_nat (length tm)", "Z"),          # len(self.treatment_mapping[0])
+        ("screen.treatment_arity", "Z.of_nat arity", "Z"),
+        ("combination_count(__n, __k)", "!src_combination_count {n} {k}", "Z", {"n": "Z", "k": "Z"}),     # the translated function
+        ("screen.treatment_mapping[0]", "tm_names tm", _ZS), ("screen.treatment_mapping[1]", "tm_doses tm", _ZS),
+        ("screen.sample_mapping[0]", "sm_names sm", _ZS), ("screen.sample_mapping[1]", "sm_ids sm", _ZS),
+        ("screen.treatment_mapping", "tm", "tmap3"), ("screen.sample_mapping", "sm", _PAIRS),
+        ("zip(__a, __b)", "combine {a} {b}", _PAIRS, {"a": _ZS, "b": _ZS}),
+        ("combinations(__l, __k)", "!py_combinations {l} {k}", _CUBE, {"l": _PAIRS, "k": "Z"}),
+        ("list(__l)", "{l}", _CUBE, {"l": _CUBE}),
+        ("np.array(__l, dtype=object)", "{l}", _CUBE, {"l": _CUBE}),
+        ("__c[:, :, 0]", "!cube_proj arity fst {c}", _ZM, {"c": _CUBE}),
+        ("__c[:, :, 1]", "!cube_proj arity snd {c}", _ZM, {"c": _CUBE}),
+        ("__c.shape[0]", "Z.of_nat (length {c})", "Z", {"c": _CUBE}),
+        ("['1'] * __n", "Z.to_nat {n}", "platecol", {"n": "Z"}),
+        ("[__x] * __n", "repeat {x} (Z.to_nat {n})", _ZS, {"x": "Z", "n": "Z"}),
+        ("np.array(__l)", "{l}", "platecol", {"l": "platecol"}), ("np.array(__l)", "{l}", _ZS, {"l": _ZS}),
+        ("dict(__p)", "dict_of_pairs {p}", "dict", {"p": _PAIRS}),
+        ("__d[__k]", "!dict_read {d} {k}", "Z", {"d": "dict", "k": "Z"}),
+        ("__a.astype(str)", "{a}", _ZM, {"a": _ZM}), ("__a.astype(str)", "{a}", _ZS, {"a": _ZS}),
+        ("__a.astype(FloatingPointType)", "{a}", _ZM, {"a": _ZM}),
+    ],
+    kwcalls={"Screen": (
+        "!space_screen {treatment_mapping} {sample_mapping} {treatment_names} {treatment_doses} {sample_names}", "(list Z * list list Z)",
+        [("treatment_names", _ZM, None), ("treatment_doses", _ZM, None), ("sample_names", _ZS, None), ("plate_names", "platecol", None),
+         ("sample_mapping", _PAIRS, None), ("treatment_mapping", "tmap3", None)])},
+    raises=[("The treatment space is too large for this method", 1)],
+)
+ALL += [C20_COMBINATION_COUNT, C20_SPACE]
